@@ -103,6 +103,11 @@ func (Engine) Run(ctx *hk.RunCtx) error {
 			data, q, cl = genInBoundary(r)
 			e.hit("class:in-subquery-boundary")
 			e.hit("in-subquery-boundary:" + cl)
+		} else if c < 10 {
+			var cl string
+			data, q, cl = genOverlap(r)
+			e.hit("class:overlapping-select-expressions")
+			e.hit("overlap:" + cl)
 		} else {
 			data = genData(r)
 			q = genQuery(r, data)
